@@ -82,9 +82,18 @@ const (
 	OpDeleteEdit          // child X deleted and parent edited to a list without X, one upload
 	OpDelete              // child X deleted on its own (a fault if the visible parent still references it)
 	OpParentDelete        // parent deleted
+	// OpInterloperTouchEdit is OpTouchEdit(X, L, Skew) preceded, in the same
+	// second, by an upload of somebody else (another changeset) that writes a
+	// version of the same child X stamped inside the grouping window: with
+	// Skew +1 strictly between the parent's timestamp and the own child
+	// version's timestamp (parent T, interloper T+delta/2, own T+delta), with
+	// Skew -1 before the own child version (interloper T-1.5 delta, own
+	// T-delta, parent T). Two uploads, one transition; version numbers follow
+	// commit order and timestamps ascend with them. Pre-commit regime only.
+	OpInterloperTouchEdit
 )
 
-var OpNames = []string{"touch", "touch2", "edit", "touch+edit", "delete+edit", "delete", "parent-delete"}
+var OpNames = []string{"touch", "touch2", "edit", "touch+edit", "delete+edit", "delete", "parent-delete", "interloper+touch+edit"}
 
 // Op is one transition. Gap indexes the regime's gap alphabet.
 type Op struct {
@@ -106,7 +115,7 @@ func (o Op) String(f *Family) string {
 		s += "(" + f.Names[o.X] + ")"
 	case OpEdit:
 		s += "(" + f.ListName(o.L) + ")"
-	case OpTouchEdit, OpDeleteEdit:
+	case OpTouchEdit, OpDeleteEdit, OpInterloperTouchEdit:
 		s += fmt.Sprintf("(%s,%s,skew%+d)", f.Names[o.X], f.ListName(o.L), o.Skew)
 	}
 	return s + fmt.Sprintf("@g%d", o.Gap)
@@ -130,6 +139,12 @@ type Space struct {
 	Depth  int
 	Touch2 bool // include several-versions-in-one-commit transitions
 
+	// Interlopers includes the OpInterloperTouchEdit transitions (pre-commit
+	// regime). Independently of it, a gap g with 0 < g < Delta in Gaps is a
+	// "small gap": a foreign child-only touch stamped inside the same-upload
+	// skew of the previous upload (see Next for the guards).
+	Interlopers bool
+
 	// Version numbering of all elements (Config): OSM versions need not
 	// start at 1 or be sequential.
 	FirstVersion, VersionStep int
@@ -144,13 +159,14 @@ type SpaceID struct {
 	Skews  []int   `json:"skews"`
 	Depth  int     `json:"depth"`
 	Touch2 bool    `json:"touch2"`
+	Interl bool    `json:"interlopers"`
 	FirstV int     `json:"first_version"`
 	StepV  int     `json:"version_step"`
 }
 
 // ID returns the serialisable identity of the space.
 func (s *Space) ID() SpaceID {
-	id := SpaceID{Family: s.Fam.Name, Regime: int(s.Regime), DeltaS: int64(s.Delta / time.Second), Skews: s.Skews, Depth: s.Depth, Touch2: s.Touch2, FirstV: s.FirstVersion, StepV: s.VersionStep}
+	id := SpaceID{Family: s.Fam.Name, Regime: int(s.Regime), DeltaS: int64(s.Delta / time.Second), Skews: s.Skews, Depth: s.Depth, Touch2: s.Touch2, Interl: s.Interlopers, FirstV: s.FirstVersion, StepV: s.VersionStep}
 	for _, g := range s.Gaps {
 		id.GapsMS = append(id.GapsMS, int64(g/time.Millisecond))
 	}
@@ -160,7 +176,7 @@ func (s *Space) ID() SpaceID {
 // SpaceFromID rebuilds a space from its identity.
 func SpaceFromID(id SpaceID) *Space {
 	s := &Space{Fam: FamilyByName(id.Family), Regime: Regime(id.Regime), Delta: time.Duration(id.DeltaS) * time.Second,
-		Skews: id.Skews, Depth: id.Depth, Touch2: id.Touch2, FirstVersion: id.FirstV, VersionStep: id.StepV}
+		Skews: id.Skews, Depth: id.Depth, Touch2: id.Touch2, Interlopers: id.Interl, FirstVersion: id.FirstV, VersionStep: id.StepV}
 	for _, g := range id.GapsMS {
 		s.Gaps = append(s.Gaps, time.Duration(g)*time.Millisecond)
 	}
@@ -186,9 +202,9 @@ func (s *Space) Walk(visit func(w *World, trace []Op) bool) {
 	u, st := s.Initial()
 	w.Apply(u)
 	ops := s.Ops()
-	ups := make([]Upload, len(ops))
+	ups := make([][]Upload, len(ops))
 	for i, o := range ops {
-		ups[i] = s.Upload(o)
+		ups[i] = s.Uploads(o)
 	}
 	var trace []Op
 	var rec func(st Status)
@@ -201,11 +217,15 @@ func (s *Space) Walk(visit func(w *World, trace []Op) bool) {
 			if !ok {
 				continue
 			}
-			w.Apply(ups[i])
+			for _, u := range ups[i] {
+				w.Apply(u)
+			}
 			trace = append(trace, o)
 			rec(n)
 			trace = trace[:len(trace)-1]
-			w.Undo()
+			for range ups[i] {
+				w.Undo()
+			}
 		}
 	}
 	rec(st)
@@ -214,13 +234,14 @@ func (s *Space) Walk(visit func(w *World, trace []Op) bool) {
 // Status is the summary of the current world the transition guards need. It is
 // maintained next to the world (which holds the full ground truth).
 type Status struct {
-	vis      [4]bool          // child visible
-	pvis     bool             // parent visible
-	list     int              // menu index of the last visible parent version
-	faults   int              // fault transitions so far
-	grpPar   bool             // the current same-instant group contains a parent version
-	grpMulti bool             // ... contains an upload writing more than one element
-	sinceDel [4]time.Duration // for a deleted child: time since its delete
+	vis        [4]bool          // child visible
+	pvis       bool             // parent visible
+	list       int              // menu index of the last visible parent version
+	faults     int              // fault transitions so far
+	grpPar     bool             // the current same-instant group contains a parent version
+	grpMulti   bool             // ... contains an upload writing more than one element
+	sinceDel   [4]time.Duration // for a deleted child: time since its delete
+	afterSmall bool             // the last upload came after a small gap
 }
 
 // ThrMax is the largest grouping threshold any variant uses.
@@ -243,8 +264,9 @@ func (s *Space) Initial() (Upload, Status) {
 	return u, st
 }
 
-// Upload translates an op into the upload it stands for.
-func (s *Space) Upload(o Op) Upload {
+// Uploads translates an op into the upload(s) it stands for (one, except for
+// OpInterloperTouchEdit which is two).
+func (s *Space) Uploads(o Op) []Upload {
 	f := &s.Fam
 	u := Upload{Gap: s.Gaps[o.Gap]}
 	skew := time.Duration(o.Skew) * s.Delta
@@ -263,8 +285,21 @@ func (s *Space) Upload(o Op) Upload {
 		u.Changes = []Change{{ID: f.Children[o.X], Delete: true}}
 	case OpParentDelete:
 		u.Changes = []Change{{ID: f.Parent, Delete: true}}
+	case OpInterloperTouchEdit:
+		u.Changes = []Change{{ID: f.Children[o.X], Skew: s.InterloperSkew(o.Skew)}}
+		own := Upload{Gap: 0, Changes: []Change{{ID: f.Children[o.X], Skew: skew}, {ID: f.Parent, SetRefs: true, Refs: f.Refs(o.L)}}}
+		return []Upload{u, own}
 	}
-	return u
+	return []Upload{u}
+}
+
+// InterloperSkew is the offset of the interloper's child version from the
+// parent's timestamp for an OpInterloperTouchEdit with the given own skew.
+func (s *Space) InterloperSkew(ownSkew int) time.Duration {
+	if ownSkew > 0 {
+		return s.Delta / 2
+	}
+	return -s.Delta - s.Delta/2
 }
 
 // Next returns the status after o. ok is false when o is not enabled in st.
@@ -278,10 +313,31 @@ func (s *Space) Upload(o Op) Upload {
 // only); a new parent version does not reference a child whose delete is at
 // most one threshold old (inside the grouping window a delete is, by design of
 // the heuristic, indistinguishable from a delete that belongs to the parent's
-// own upload).
+// own upload). A small gap (0 < gap < Delta) is only taken by a child-only
+// touch (the foreign edit right after an upload, stamped inside that upload's
+// skew: by timestamps it is later than the parent, and that is its ground
+// truth), and the upload after it is well separated again (a parent version
+// stamped inside the skew of an earlier upload would see that upload's child
+// version "in the future" under a foreign changeset). An interloper transition
+// starts well separated.
 func (s *Space) Next(st Status, o Op) (Status, bool) {
 	f := &s.Fam
 	n := st
+	if g := s.Gaps[o.Gap]; s.Regime == PreCommit {
+		small := g > 0 && g < s.Delta
+		if small && (o.Kind != OpTouch || st.afterSmall) {
+			return st, false
+		}
+		if st.afterSmall && g <= 2*ThrMax {
+			return st, false
+		}
+		if o.Kind == OpInterloperTouchEdit && (g == 0 || small) {
+			return st, false
+		}
+		n.afterSmall = small
+	} else if o.Kind == OpInterloperTouchEdit {
+		return st, false
+	}
 	for x := range f.Children {
 		if !st.vis[x] && n.sinceDel[x] < 1000*time.Hour {
 			n.sinceDel[x] += s.Gaps[o.Gap]
@@ -298,7 +354,7 @@ func (s *Space) Next(st Status, o Op) (Status, bool) {
 				break
 			}
 		}
-	case OpTouchEdit:
+	case OpTouchEdit, OpInterloperTouchEdit:
 		if !f.InList(o.L, o.X) {
 			return st, false
 		}
@@ -337,7 +393,7 @@ func (s *Space) Next(st Status, o Op) (Status, bool) {
 		n.pvis = false
 	}
 	single := o.Kind == OpTouch || o.Kind == OpEdit || o.Kind == OpDelete || o.Kind == OpParentDelete
-	parent := o.Kind == OpEdit || o.Kind == OpTouchEdit || o.Kind == OpDeleteEdit || o.Kind == OpParentDelete
+	parent := o.Kind == OpEdit || o.Kind == OpTouchEdit || o.Kind == OpDeleteEdit || o.Kind == OpParentDelete || o.Kind == OpInterloperTouchEdit
 	if s.Gaps[o.Gap] == 0 {
 		// same instant as the previous upload (pre-commit regime only)
 		if !single || st.grpPar || st.grpMulti {
@@ -379,6 +435,9 @@ func (s *Space) Ops() []Op {
 				for _, sk := range s.Skews {
 					out = append(out, Op{Kind: OpTouchEdit, X: x, L: l, Skew: sk, Gap: g})
 					out = append(out, Op{Kind: OpDeleteEdit, X: x, L: l, Skew: sk, Gap: g})
+					if s.Interlopers && sk != 0 {
+						out = append(out, Op{Kind: OpInterloperTouchEdit, X: x, L: l, Skew: sk, Gap: g})
+					}
 				}
 			}
 		}
